@@ -82,6 +82,14 @@ def svc_addrs(svc):
     return seen
 
 
+def txt_rdata(svc):
+    out = b""
+    for k, v in svc.get("props") or []:
+        e = bytes.fromhex(k) if v is None else bytes.fromhex(k) + b"=" + bytes.fromhex(v)
+        out += bytes([len(e)]) + e
+    return out or b"\x00"
+
+
 def props_tok(svc):
     ps = svc.get("props") or []
     return ",".join("%s:%s" % (k or "-", "~" if v is None else (v or "-")) for k, v in ps) or "-"
@@ -218,12 +226,20 @@ class Registrations:
         for x, pk in parsed_sent(rec):
             if pk is None or not (pk["flags"] & 0x8000):
                 continue
+            addrs = {str(ipaddress.ip_address(rr["rdata"])) for rr in pk["an"] if rr["type"] in (1, 28)}
+            ports = {rr["srv"][2] for rr in pk["an"] if rr["type"] == 33 and rr["srv"]}
+            txts = {rr["rdata"] for rr in pk["an"] if rr["type"] == 16}
             for rr in pk["an"]:
                 if rr["type"] == 12 and rr["ttl"] > 0 and rr["target"] is not None:
                     tgt = dnsgen.dotted(rr["target"]).decode("utf-8", "replace")
                     own = dnsgen.dotted(rr["name"]).decode("utf-8", "replace")
                     for v in self.svcs.values():
-                        if own == split_ty(v["svc"]["ty"])[0] and tgt in self.names_of(v["svc"]):
+                        # the announcement of THIS registration (a name can be registered again in the
+                        # same iteration): same port, same TXT, only addresses of this registration
+                        if (own == split_ty(v["svc"]["ty"])[0] and tgt in self.names_of(v["svc"])
+                                and ports <= {v["svc"].get("port", 80)}
+                                and addrs <= set(svc_addrs(v["svc"]))
+                                and txts <= {txt_rdata(v["svc"])}):
                             v["ann"].add(x.get("if"))
 
     def nc_tok(self, ifname):
